@@ -198,7 +198,8 @@ impl WorkerPool {
             .map(|db| SignatureMatcher::new(db.as_ref()));
 
         // Each worker maintains its own connection tracker (state isolation)
-        let mut connection_tracker = TtlCache::new(config.max_connections);
+        let mut connection_tracker =
+            TtlCache::new(crate::uptime::tracker_capacity(config.max_connections));
 
         let timeout = Duration::from_millis(config.timeout_ms);
 
